@@ -70,7 +70,7 @@ class Traced:
         parser.match_token = mt
 
 
-def parse(text, stop=False, default='en', acc=None, id_generator=None, raw_scanner=False, matcher=None):
+def parse(text, stop=False, default='en', acc=None, id_generator=None, raw_scanner=False, matcher=None, reread=False):
     """Returns ('ok', doc) | ('errors', [(line, col, msg)]) | ('error1', [(line, col, msg)]) | ('exc', repr)."""
     ig = id_generator or IdGenerator()
     p = Parser(AstBuilder(ig))
@@ -83,6 +83,14 @@ def parse(text, stop=False, default='en', acc=None, id_generator=None, raw_scann
         d = p.parse(sc, m)
         if not isinstance(d, dict):
             return ('exc', 'Parser.parse returned %r instead of a document' % (d,))
+        if reread:
+            # asking for the result again (Parser.get_result is public) is a read: same document, and the one already returned keeps its content
+            import json
+            frozen = json.dumps(d, sort_keys=True, default=repr)
+            again = p.get_result()
+            if again != d or json.dumps(d, sort_keys=True, default=repr) != frozen:
+                return ('exc', 'Parser.get_result() after parse() returned gives %s and leaves the returned document %s'
+                        % ('the same document' if again == d else 'another result (%s)' % str(again)[:80], 'unchanged' if json.dumps(d, sort_keys=True, default=repr) == frozen else 'CHANGED'))
         return ('ok', d)
     except CompositeParserException as e:
         return ('errors', [err_tuple(x) for x in e.errors])
@@ -145,11 +153,21 @@ def parse_reused(text, default='en', stop=False, poison=False):
         return ('exc', '%s: %s' % (type(e).__name__, e))
 
 
+def _plain_text(text):
+    """True when the string cannot be mistaken for a path by TokenScanner(path_or_str) (finding D1 is C01's)."""
+    import os
+    try:
+        return '\n' in text and not os.path.exists(text)
+    except (ValueError, OSError):
+        return False
+
+
 def parse_routes(text, default='en', acc=None):
     """[(route name, result)]: fresh instances, then instances that have parsed other documents before."""
-    return [('fresh parser', parse(text, default=default, acc=acc)),
+    return [('fresh parser', parse(text, default=default, acc=acc, reread=True)),
             ('parser and matcher that parsed other documents before', parse_reused(text, default)),
-            ('fresh parser in stop-at-first-error mode with an explicitly passed matcher', parse(text, stop=True, matcher=TokenMatcher(default)))]
+            ('fresh parser in stop-at-first-error mode with an explicitly passed matcher', parse(text, stop=True, matcher=TokenMatcher(default)))] + \
+        ([('parser given the text itself instead of a scanner', parse(text, default=default, raw_scanner=True))] if _plain_text(text) else [])
 
 
 def full(text, stop=False, default='en', acc=None, uri='u'):
